@@ -27,9 +27,28 @@ def blocker(tid):
     BLOCKER_EVT[0].wait(60)
 
 
+SHARED_THREAD_NAME = "db-worker"
+
+
+class FalsyCallable:
+    """a callable object that is falsy (it is also an empty container, say): still the function to run"""
+
+    def __call__(self, tid):
+        return blocker(tid)
+
+    def __len__(self):
+        return 0
+
+
 async def tleaf(tid):
     # several sibling tasks run this very function, so their tasks (and their worker threads) have equal names
-    await trio.to_thread.run_sync(blocker, tid)
+    if tid % 3 == 1:
+        # ... or the very same name object, given explicitly
+        await trio.to_thread.run_sync(blocker, tid, thread_name=SHARED_THREAD_NAME)
+    elif tid % 3 == 2:
+        await trio.to_thread.run_sync(FalsyCallable(), tid)
+    else:
+        await trio.to_thread.run_sync(blocker, tid)
 
 
 def is_thread_leaf(spec):
